@@ -241,6 +241,11 @@ fn main() {
             let v = [a, near(rng, a), near(rng, a)];
             check_triangle(ctx, v);
         });
+        let nbig = run.tier(300u64, 20_000u64);
+        run.generate("triangle-large", nbig, false, 0.2, |ctx, _idx, rng| {
+            let p = |rng: &mut Rng| Point::new(rng.i32r(-600, 600), rng.i32r(-400, 400));
+            check_triangle(ctx, [p(rng), p(rng), p(rng)]);
+        });
         let q = run.tier(6u64, 7u64);
         let qp = q * q;
         run.generate("shared-edge-grid", qp * qp * qp * qp, true, 0.25, |ctx, idx, _rng| {
